@@ -496,7 +496,7 @@ func c09Check(c *core.Ctx, cases []c09Case) []core.Outcome {
 			g.parse, g.repl, g.fn = "", "", ""
 		}
 		for _, cmp := range []struct{ name, want, what string }{
-			{"valid", g.wantValid, "the match sequence Go delivered is not ordered/disjoint/in bounds by the model's predicate"},
+			{"valid", g.wantValid, "a theorem hypothesis fails on what Go delivered: the match sequences must be ordered, disjoint, in bounds (valid) and the group maps well-formed (envOk)"},
 			{"parse", g.parse, "Lean scanner (scanReplacement/scanDollar/NewReplacerData model) disagrees with syntax.NewReplacerData"},
 			{"replace", g.repl, "Lean replace model disagrees with Regexp.Replace"},
 			{"func", g.fn, "Lean replaceFunc model disagrees with Regexp.ReplaceFunc"},
@@ -812,7 +812,7 @@ func c09One(cs c09Case, o *core.Outcome, g *c09Go) {
 	g.line = strings.ReplaceAll(g.line, "( ", "(")
 	g.line = strings.ReplaceAll(g.line, " )", ")")
 
-	g.wantValid = "(valid 1 1)"
+	g.wantValid = "(valid 1 1 1)"
 	// parsed replacement: syntax.NewReplacerData with the regex's own maps
 	tree, perr := syntax.Parse(cs.Pattern, syntax.ParseOptions{RegexOptions: syntax.RegexOptions(opts), MaintainCaptureOrder: cs.Ordered})
 	if perr == nil {
@@ -948,6 +948,29 @@ func init() {
 			{Pattern: `é|(日)`, Input: "aé日😀é", Rep: "$1$1", StartAt: 3, Count: 2},
 			{Pattern: `a`, Input: "aaa", Rep: "$99999999999", StartAt: -1, Count: 0},
 			{Pattern: `a*`, Input: "", Rep: "x", StartAt: 0, Count: -1},
+		}
+		// the cases of /repo's replace_test.go and split_test.go, in both directions and with a bounded count
+		for _, b := range []c09Case{
+			{Pattern: `[^ ]+\s(?<time>)`, Input: "08/10/99 16:00", Rep: "${time}"},
+			{Pattern: `D\.(.+)`, Input: "D.Bau", Rep: "David $1"},
+			{Pattern: `(123)hello(789)`, Input: "123hello789", Rep: "$1456$2"},
+			{Pattern: `(\p{Sc}\s?)?(\d+\.?((?<=\.)\d+)?)(?(1)|\s?\p{Sc})?`, Input: "$17.43  €2 16.33  £0.98  0.43   £43   12€  17", Rep: "$2"},
+			{Pattern: `a(.)c(.)e`, Opts: int(regexp2.IgnoreCase), Input: "123abcde456aBCDe789abcde", Rep: "<$2$1>"},
+			{Pattern: `(?<=\G..)(?=..)`, Input: "aabbccdd", Rep: "-"},
+			{Pattern: `test(?<sub>ing)?`, Input: "this is a testing stuff test", Rep: "[${sub}|$+|$`]"},
+			{Pattern: `a`, Input: "aaaaa", Rep: "b", StartAt: 3},
+		} {
+			for _, rtl := range []int{0, int(regexp2.RightToLeft)} {
+				for _, count := range []int{-1, 2} {
+					cs := b
+					cs.Opts |= rtl
+					cs.Count = count
+					if cs.StartAt == 0 {
+						cs.StartAt = -1
+					}
+					corpus = append(corpus, cs)
+				}
+			}
 		}
 		core.RunLeg(c, core.Leg[c09Case]{
 			Name: "P", Kind: "correspondence+oracle",
